@@ -119,9 +119,14 @@ def run(model, rep):
         'AugAssign': lambda: Obj('AugAssign', target=Obj('Name', id='__all__'), value=Obj('List', elts=[Obj('Constant', value='a'), Obj('Constant', value='b')])),
         'other': lambda: Obj('Assign', targets=[Obj('Name', id='names')], value=Obj('List', elts=[Obj('Constant', value='zz')])),
     }
+    shapes['two statements'] = lambda: [Obj('Assign', targets=[Obj('Name', id='__all__')], value=Obj('List', elts=[Obj('Constant', value='a')])),
+                                        Obj('Expr', value=Obj('Name', id='x')),
+                                        Obj('AugAssign', target=Obj('Name', id='__all__'), value=Obj('List', elts=[Obj('Constant', value='b')]))]
+    shapes['mixed elements'] = lambda: Obj('Assign', targets=[Obj('Name', id='__all__')], value=Obj('List', elts=[Obj('Constant', value='a'), Obj('Name', id='n'), Obj('Constant', value='b'), Obj('Constant', value=1)]))
     for sh, mk in shapes.items():
         stmt = mk()
-        hooks = {'ast.iter_child_nodes': lambda I, e, args, kw, env, _s=stmt: [_s]}
+        body = stmt if isinstance(stmt, list) else [stmt]
+        hooks = {'ast.iter_child_nodes': lambda I, e, args, kw, env, _s=body: list(_s)}
         I = Interp(model, UTIL, hooks)
         res = I.explore(lambda: I.call_function(fa.qual, [Obj('Module')]))
         outs = [r[0] for r in res]
